@@ -60,3 +60,31 @@ pub struct VerifOwners {
     pub system_freed: Vec<(u64, u64)>,
     pub data_allocated: Vec<(u64, u64)>,
 }
+
+#[cfg(not(redb_no_std))]
+mod pause_impl {
+    use alloc::sync::Arc;
+    use std::sync::{Mutex, OnceLock};
+
+    type Hook = Arc<dyn Fn(&'static str) + Send + Sync>;
+    static HOOK: OnceLock<Mutex<Option<Hook>>> = OnceLock::new();
+
+    /// Installs (or removes) the callback that is invoked at every named pause point
+    pub fn verif_set_pause_hook(hook: Option<Hook>) {
+        *HOOK.get_or_init(|| Mutex::new(None)).lock().unwrap() = hook;
+    }
+
+    /// A named pause point: a no-op unless a hook is installed
+    pub(crate) fn pause(name: &'static str) {
+        let hook = HOOK.get().and_then(|m| m.lock().unwrap().clone());
+        if let Some(hook) = hook {
+            hook(name);
+        }
+    }
+}
+#[cfg(not(redb_no_std))]
+pub use pause_impl::verif_set_pause_hook;
+#[cfg(not(redb_no_std))]
+pub(crate) use pause_impl::pause;
+#[cfg(redb_no_std)]
+pub(crate) fn pause(_name: &'static str) {}
